@@ -167,6 +167,9 @@ class Ledger:
             g = self.guarded_at_callsites(s)
             if g:
                 return "guarded-at-callers", g
+            g = self.unreferenced(s)
+            if g:
+                return "unreferenced", g
         # 4. protocol asserts
         if s.kind == "assert":
             r = self.protocol_assert(s)
@@ -206,6 +209,28 @@ class Ledger:
             if not ok:
                 return None
         return f"every call site ({', '.join(sorted({r.qual for r, _ in sites}))}) catches {s.cls}"
+
+    def unreferenced(self, s):
+        """a raise in a function that nothing in the package calls or mentions (no call, no attribute access, no name load of
+        its name anywhere - only its definition and its registration by `setattr(cls, "<name>", f)`) cannot be reached from a
+        decode: it is API surface for users of the library"""
+        name = s.ref.qual.split(".")[-1]
+        if name.startswith("__") and name.endswith("__"):
+            return None   # special methods are called by the interpreter
+        for m in self.project.modules.values():
+            for n in ast.walk(m.tree):
+                if isinstance(n, ast.Attribute) and n.attr == name:
+                    return None
+                if isinstance(n, ast.Name) and n.id == name and isinstance(n.ctx, ast.Load):
+                    par = getattr(n, "_parent", None)
+                    if isinstance(par, ast.Call) and call_name(par) == "setattr" and len(par.args) == 3 and par.args[2] is n:
+                        continue   # the registration itself
+                    return None
+                if isinstance(n, ast.Constant) and n.value == name:
+                    par = getattr(n, "_parent", None)
+                    if isinstance(par, ast.Call) and call_name(par) in ("getattr", "hasattr"):
+                        return None
+        return f"`{name}` is not called or mentioned anywhere in the package (API surface, unreachable from a decode)"
 
     def guarded_at_callsites(self, s):
         """a raise under `if self.<flag>:` in a method is dead when every call site has established `<receiver>.<flag>` false
